@@ -353,3 +353,35 @@ func nilControls(c *Ctx, r *Report, rule string) {
 	r.Check(len(diff) == 0, rule, r.Key(rule, nil, "engine-control", "E4-nilflow"), token.NoPos,
 		"nil-flow engine fired on exactly the 3 violating control functions", "nil-flow control mismatch (checker defect): "+strings.Join(diff, ", "))
 }
+
+// freshNonNil: the expression is a freshly allocated, non-nil value — an address-of, a composite literal,
+// new/make, or a call of a first-party function every return of which hands back such a value.
+func (p *Prog) freshNonNil(fn *Fn, e ast.Expr, depth int) bool {
+	e = ast.Unparen(e)
+	if definitelyNonNil(e) {
+		return true
+	}
+	call, ok := e.(*ast.CallExpr)
+	if !ok || depth > 3 {
+		return false
+	}
+	cf := p.Callee(fn, call)
+	if cf == nil || !p.firstParty(cf.Pkg()) {
+		return false
+	}
+	h := p.ByObj[cf]
+	if h == nil || h.Body == nil {
+		return false
+	}
+	nret, all := 0, true
+	walkNoLit(h.Body, func(n ast.Node) bool {
+		if ret, ok := n.(*ast.ReturnStmt); ok {
+			nret++
+			if len(ret.Results) != 1 || !p.freshNonNil(h, ret.Results[0], depth+1) {
+				all = false
+			}
+		}
+		return true
+	})
+	return nret > 0 && all
+}
